@@ -708,3 +708,4 @@ def finish(tier, rep: Report):
     if "tangent" not in rep.outcomes.get("face_constraint", ()):
         fails.append("face constraint clause never held")
     return fails
+
